@@ -30,9 +30,9 @@ Twin(n) == CASE n = "KP_LEFT" -> "LEFT" [] n = "KP_RIGHT" -> "RIGHT" [] n = "KP_
 
 (* UTF-8 of a code point (RFC 3629). *)
 Utf8(c) == IF c < 128 THEN <<c>>
-           ELSE IF c < 2048 THEN <<192 + c \div 64, 128 + c % 64>>
-           ELSE IF c < 65536 THEN <<224 + c \div 4096, 128 + (c \div 64) % 64, 128 + c % 64>>
-           ELSE <<240 + c \div 262144, 128 + (c \div 4096) % 64, 128 + (c \div 64) % 64, 128 + c % 64>>
+           ELSE IF c < 2048 THEN <<192 + (c \div 64), 128 + (c % 64)>>
+           ELSE IF c < 65536 THEN <<224 + (c \div 4096), 128 + ((c \div 64) % 64), 128 + (c % 64)>>
+           ELSE <<240 + (c \div 262144), 128 + ((c \div 4096) % 64), 128 + ((c \div 64) % 64), 128 + (c % 64)>>
 
 (* A printable key that carries the text it produced (no Ctrl, no Alt): the legacy encoding of such *)
 (* a key IS that text (xterm sends what the key press produced), whatever the code of the key: a    *)
@@ -40,7 +40,7 @@ Utf8(c) == IF c < 128 THEN <<c>>
 (* composed text that belongs to no key.  e.text: its code points.                                   *)
 TextKey(e) == e.name = "" /\ e.text # <<>> /\ e.mods \in {0, Shift}
 
-(* e: [name, code, mods, lower (has an upper-case image), ascii] *)
+(* e: [name, code, mods, lower (has an upper-case image), shifted (that image)] *)
 Expressible(e) ==
   IF e.name \in Cursor \cup Editing \cup FKeys \cup {"KP_BEGIN"} THEN TRUE   \* CSI 1;m X / CSI n;m ~ carry every modifier set (keypad Begin: CSI 1;m E)
   ELSE IF e.name \in Controls THEN
@@ -113,7 +113,9 @@ KeyWhy(e) ==
   \* ESC + 2/0-2/15 and ESC + a character beyond ASCII are the right legacy encodings of Alt + that key; Vaxis's decoder
   \* (the VT500 state machine, made for output) collects the former as an escape intermediate and drops the latter: no event
   ELSE IF e.n = 0 /\ e.mods = Alt /\ e.code \in 32..47 /\ e.bytes = <<27, e.code>> THEN "alt-lost-decoding-esc-intermediate"
-  ELSE IF e.n = 0 /\ e.code > 127 /\ e.bytes = <<27>> \o Utf8(IF e.mods = Alt THEN e.code ELSE e.shifted) THEN "alt-lost-decoding-esc-nonascii"
+  \* (or, should the decoder keep the character: the key without its Alt)
+  ELSE IF (e.n = 0 \/ (e.n = 1 /\ ~e.rt /\ e.rtnoalt)) /\ e.mods \in {Alt, Alt + Shift} /\ e.code > 127
+          /\ e.bytes = <<27>> \o Utf8(IF e.mods = Alt THEN e.code ELSE e.shifted) THEN "alt-lost-decoding-esc-nonascii"
   ELSE IF e.n # 1 THEN "not-one-key-event"
   \* ESC + C0 is the right legacy encoding of Alt + that control; Vaxis's decoder drops the Alt (C09's known finding)
   ELSE IF ~e.rt /\ e.rtnoalt /\ Len(e.bytes) = 2 /\ e.bytes[1] = 27 /\ e.bytes[2] < 32 THEN "alt-lost-decoding-esc-c0"
